@@ -2,6 +2,7 @@ SPECIFICATION Spec
 CONSTANTS
   IsCase <- MCCase
   KnownDefects = {}
+  MaxRoundsNoSoE = 50
   Log <- LogLast
   NsFull = {1, 2, 3, 4, 5, 6, 7, 8}
   NsSampled = {9, 10}
@@ -11,6 +12,7 @@ CONSTANTS
   NsAlpha = {}
   AlphaBytes = {}
   NsBig = {}
+  NsFb = {3, 9}
   Modes = {"sel", "dropHi", "dropLeader", "addLo", "all", "foreign"}
 VIEW cvars
 INVARIANTS TypeOK Inv_MachineIsVerdict Inv_C17_Quorum Inv_C17_PaddingNeverCounts Inv_ThresholdSane
